@@ -17,13 +17,19 @@ def main():
     open(path, "w").write(g.text())
     print("generated", path, len(g.lines), "lines")
     if "--gen-only" in sys.argv: return
-    res = verus.run_verus(path)
+    extra = []
+    if "--only" in sys.argv: extra = ["--verify-root", "--verify-function", sys.argv[sys.argv.index("--only") + 1]]
+    res = verus.run_verus(path, extra=extra)
     c = verus.classify(res, g.lines)
     js = res["json"]
     if js: print("verification-results:", js.get("verification-results"))
     for k in ("failed", "untagged", "undecided", "tool_errors"):
         for r in c[k]:
-            print("==", k, r.get("obl", ""), r["msg"])
-            print(r.get("rendered", "")[:1800])
+            print("==", k, r.get("obl", ""), r["msg"], "|", " ; ".join("%d:%s" % (ln, g.lines[ln-1].strip()[:70]) for ln in r.get("sites", [])[:3] if 0 < ln <= len(g.lines)))
+            if "-v" in sys.argv or k in ("tool_errors",): print(r.get("rendered", "")[:1800])
+    if js and "--times" in sys.argv:
+        for mod in js["times-ms"]["smt"]["smt-run-module-times"]:
+            for f in sorted(mod.get("function-breakdown", []), key=lambda x: -x["time"])[:12]:
+                print("   %6d ms  %s" % (f["time"], f["function"]))
     print("wall %.1fs" % res["wall_s"], "obligations:", len(verus.obligations_in(g.lines)))
 main()
